@@ -9,8 +9,13 @@ wt = f"/tmp/seed/{pid}{round_tag}"
 previous = ""
 if round_tag:
     try:
-        m = json.load(open(f"/verif/seeded/{pid}-a/meta.json"))
-        previous = ("\nNOTE: another contributor has already submitted a change for this property that manifests like this: \"" + m.get("needs_to_manifest", "") + "\". Yours must work through a DIFFERENT mechanism, a different code path and a different kind of triggering input/sequence (ideally breaking a different clause of the statement).\n")
+        prior = []
+        for tag in ("a", "b", "c"):
+            mp = f"/verif/seeded/{pid}-{tag}/meta.json"
+            if os.path.exists(mp) and f"-{tag}" != round_tag:
+                prior.append(json.load(open(mp)).get("needs_to_manifest", ""))
+        m = {"needs_to_manifest": "\"; and another like this: \"".join(prior)}
+        previous = ("\nNOTE: other contributors have already submitted changes for this property that manifests like this: \"" + m.get("needs_to_manifest", "") + "\". Yours must work through a DIFFERENT mechanism, a different code path and a different kind of triggering input/sequence (ideally breaking a different clause of the statement).\n")
     except Exception:
         pass
 if not os.path.exists(wt):
